@@ -183,3 +183,19 @@ func programUnits(prefix string, progs []*Program, per int, bound int) []Unit {
 }
 
 var _ = sort.Strings
+
+// programScenarios makes the programs addressable by name for `vcheck replay` / `explore`.
+func programScenarios(prefix string, progs []*Program, bound int) []*Scenario {
+	var scs []*Scenario
+	for _, p := range progs {
+		b := 0
+		for _, s := range p.Stack {
+			if (s.Kind == KTimeout || s.Kind == KHedge) && len(p.Stack) <= p.MaxBoundedDepth {
+				b = bound
+			}
+		}
+		p.reduce = hasTimed(p.Stack)
+		scs = append(scs, &Scenario{Name: prefix + "/" + p.String(), Bound: b, Reduce: p.reduce, Body: p.Body()})
+	}
+	return scs
+}
